@@ -453,6 +453,9 @@ RAW_JUNK = [
     '07030801 61'.replace(' ', ''), 'fd', 'fe0000', 'ff', 'fdffff', '8000', 'fd03e800',
     '0505070308ff61', '06060704080561', '0507070508036162',
     '64075205000000000001', '640450020501', '6406500406020700',
+    '05020700', '06020700', '0504070021 00'.replace(' ', ''),                     # packets with a zero-component Name
+    '640ffd032005fd03210132500405020700',                                         # Nack for an Interest named "/"
+    '6406500405020700', '640a6202aabb500405020700',                               # enveloped Interest named "/"
 ]
 
 
